@@ -157,3 +157,28 @@ PROPS["C06"] = simple(
     level_note="Trusted: the runner's attribution of a process death to the last logged case. Time bounds are wall-clock because promptness is the property (10 s is far above 'seconds'; "
                "documents > 4 KB are checked for crashes only). Network references are non-https or absent here (no fetches); fetched worlds are exercised by C02/C07/C09.",
 )
+
+
+def c03_variants(tier, seed, s):
+    combos = [(128, 20), (1, 20), (2, 3), (3, 1), (128, 0), (2, 20)]
+    return [dict(name="cache%d-budget%d" % (cs, b), config=dict(preload=5, timeout=5, cache=cs), env=dict(VERIF_BUDGET=str(b)),
+                 shards=(2 if tier == "quick" else 4)) for cs, b in combos]
+
+
+PROPS["C03"] = simple(
+    "verifchk/c03", "TestVerifC03", "exploration",
+    "webs of 40..160 addresses on five loopback TLS hosts (two ports, IPv6), each answering with a response drawn from a grammar: status lines (HTTP/1.0|1.1, codes 100..599, "
+    "with/without reason, LF/CRLF, garbage, grey forms), 0..8 headers (tolerated / foreign / malformed / grey Content-Types, duplicates and conflicts, noise look-alikes, Location in "
+    "absolute, scheme-relative, path-, query- and dot-relative, non-https, empty, invalid and grey forms), bodies (object, nested, null, array, scalar, empty, truncated, garbage, grey); "
+    "planned redirect chains of length budget-2..budget+3, cycles of length 1..4; random walks of 200..300 fetches per web through jtp.Get (ActivityPub and webfinger profiles) and "
+    "client.FetchURL, one process per (cache size, redirect budget) in {(128,20),(1,20),(2,3),(3,1),(128,0),(2,20)}. Non-trivial: every fetch; distinct = (web, address, reference class, requests seen).",
+    variants=c03_variants,
+    floor=dict(evaluations=2000, distinct=1000, accepted=100, rejected=300, refetches=300),
+    technique="runtime monitor: spec-level three-valued classifier + stateless reference resolution vs. fetch results and the simulator's request log",
+    level_text="Every fetch result is compared with a stateless reference computed from the specification of the served responses (not from servitor's parsing): must-accept exchanges must "
+               "return exactly the final object and final address, must-reject exchanges an error and no document, grey syntax only has to answer consistently; the logged requests must be a "
+               "prefix of the reference chain (relative Locations resolved against the issuing address) and never exceed budget+1. Because the reference is stateless, any dependence on what "
+               "was fetched before or on the cache size shows up as a mismatch. Sampled.",
+    level_note="Trusted: the classifier in kit/gen/http.go (its grey zone: header-name case, odd spacing, obs-fold, 4-digit or HTTP/2 status lines, trailing bytes after the object, fragments in "
+               "Location) and net/url's reference resolution. One redirect budget per process, as in production (client always uses 20).",
+)
